@@ -63,6 +63,17 @@ impl SharedState {
         }
     }
 
+    /// Verification only: the same shared state with another key keeper handle.
+    #[cfg(azure_guestproxyagent_verif)]
+    pub fn verif_with_key_keeper(
+        &self,
+        key_keeper_shared_state: key_keeper_wrapper::KeyKeeperSharedState,
+    ) -> Self {
+        let mut s = self.clone();
+        s.key_keeper_shared_state = key_keeper_shared_state;
+        s
+    }
+
     pub fn get_key_keeper_shared_state(&self) -> key_keeper_wrapper::KeyKeeperSharedState {
         self.key_keeper_shared_state.clone()
     }
